@@ -345,11 +345,18 @@ func (vc *VC) ghostVar(st *State, gv *GhostVar) (Term, types.Type, error) {
 }
 
 func (vc *VC) havocGhostVar(st *State, gv *GhostVar) {
-	t, _, err := vc.ghostVar(st, gv)
+	t, ty, err := vc.ghostVar(st, gv)
 	if err != nil {
 		return
 	}
-	st.ghost["gv!"+gv.PkgPath+"::"+gv.Name] = vc.Fresh("gv_"+gv.Name, t.Sort)
+	f := vc.Fresh("gv_"+gv.Name, t.Sort)
+	st.ghost["gv!"+gv.PkgPath+"::"+gv.Name] = f
+	if ty != nil {
+		// a ghost variable of a Go type only takes values of that type
+		if _, _, isInt := isIntType(ty); isInt {
+			st.assume(vc.rangeAssumption(f, ty, st.alloc))
+		}
+	}
 }
 
 // mapHeap: maps are identified by rid of their Ref; dom: (Array Int (Array K Bool)), val: (Array Int (Array K V)), len: (Array Int Int)
